@@ -1278,8 +1278,31 @@ class C08(core.Check):
                  "executable heap model of Pile/Columns/GridFlow/Frame/Overlay/ListBox focus handling and input routing; "
                  "key->command table and focus_position range tests re-translated from the source every run (py2v); "
                  "extracted-model correspondence on random nestings with spy leaves; independent oracle from the property text")
-    level_text = "see DESIGN/C08 (filled in below)"
-    level_note = ""
+    level_text = ("Proved in Coq for ALL operation histories and all trees (no bound): after any sequence of keypresses, button-1 "
+                  "presses, focus_position / set_focus_path assignments, contents edits (every C16 list operation) and Frame part "
+                  "replacements - each followed by a render - every Pile/Columns/GridFlow/ListBox of the model has a focus that is None "
+                  "with IndexError for the position when empty and otherwise a position in range whose child is the focus widget "
+                  "(lifted from the C16 theorems), every Frame built with an existing focus part keeps focusing an existing part, Overlay "
+                  "focuses its top widget (focus_valid_inv); an invalid assignment raises IndexError and no focus anywhere changes; "
+                  "selectable() of a Pile/Columns equals any(child.selectable()) right after its contents were set (GridFlow: always); "
+                  "the focus path read from a tree can be written back to any later heap of the same shape and is read back identically "
+                  "(tree hypothesis: no widget twice on the path).  PARTIAL (proved under the hypothesis that no ListBox has a pending "
+                  "set_focus request, which every render establishes): a key is offered only to leaves on the focus path; only leaves on "
+                  "the focus path are rendered with focus=True and render changes nothing; a key not bound to a navigation command and "
+                  "handled by no leaf comes back unchanged (additionally: no Pile with a stale selectable()==False cache).  PARTIAL "
+                  "(local): the child that Pile/Columns up/down/left/right, Columns.move_cursor_to_coords and the GridFlow rows give "
+                  "the focus to had selectable()==True; the tree-wide statement is a Definition decided by correspondence + oracle. "
+                  "REFUTED with model witnesses replayed on the code: the Frame clause for Frame(body, header=None, "
+                  "focus_part='header'); 'an unhandled key comes back unchanged' for a Pile with a stale cache and for an empty "
+                  "Columns (IndexError) - recorded as known findings.  The range tests of the focus_position setters and the "
+                  "key->command table are re-translated from the source each run; all other model code is hand-written and tied by an "
+                  "exact extracted-model correspondence (8.6k cases per quick run: op results, offered leaves, leaves rendered with "
+                  "focus, every container's focus_position and selectable(), get_focus_path after every operation).")
+    level_note = ("Trusted: Coq kernel, py2v translator, extraction + OCaml driver, the hand-written model and its geometry abstraction "
+                  "(everything-fits regime: given widths/heights, all ListBox items visible, mouse press given as the child route "
+                  "computed by the harness from the rendered canvas), the Python oracle and spy leaves.  Not covered: page up/down in "
+                  "ListBox, TreeListBox, cursor widgets (Edit) as leaves, decoration widgets between containers, weights, clipped "
+                  "geometry.  Exceptions from render() and mouse_event() are observations, not judged.")
     rule = ("case = pool of widget specs (depth <= 4 nestings of Pile/Columns/GridFlow/Frame/Overlay/ListBox over spy leaves: "
             "selectable or not, handling a configurable key set) + op list (keys incl. arrows/home/end/tab/page keys, button-1 "
             "presses at a cell showing a chosen leaf's marker, focus_position assignments valid and invalid, set_focus_path, "
